@@ -10,7 +10,7 @@ from vlib.core import Leg, Result, exc_failure, excluded_hazards
 
 ID = 'C18'
 RULE = ('cases: scripts of 1-3 statements: grammar statements (SELECT/INSERT/UPDATE/DELETE/CREATE [OR REPLACE]/DROP/ALTER, WITH [RECURSIVE] 1-3 CTEs followed by '
-        'each DML) and one-line statements led by another DML/DDL word or by a non-DML/DDL word, parenthesis or name (expected UNKNOWN); each statement gets a '
+        'each DML) and one-line statements led by another DML/DDL word or by a non-DML/DDL word, parenthesis or name (expected UNKNOWN); leg cte-names: every dictionary word that is not a DML/DDL/CTE keyword (minus GO, WHERE, AS, RECURSIVE) as the name of a CTE in three templates, enumerated completely; each statement gets a '
         'drawn prefix of whitespace, block/line comments and hints (bodies contain other statements\' keywords), drawn per-word casing, drawn inner whitespace of '
         'multi-word keywords and comments at any later gap; expected string comes from the generator\'s role tag / dictionary data. non-trivial: non-empty prefix '
         'or non-canonical casing, and statement of >=6 lexemes; distinct by script text')
@@ -244,6 +244,42 @@ def check_tight_follow(case):
     return res
 
 
-LEGS = [Leg('tight-follow', check=check_tight_follow, enumerate=tight_follow_enum, exhaustive=True, max_shards=4),
+CTE_TEMPLATES = [('WITH %s AS (SELECT 1) SELECT * FROM %s', 'SELECT'), ('with a as (select 1), %s (n) as (select 2)\ndelete from t where n in (select n from %s)', 'DELETE'),
+                 ('/* c */ With %s As (Select 1) Insert Into t Select * From %s', 'INSERT')]
+CTE_NAME_EXCLUDED = {'GO', 'WHERE', 'AS', 'RECURSIVE'}       # statement structure by documented rules: batch separator, clause opener, CTE syntax
+
+
+def _cte_names(tier):
+    """every dictionary word that is not itself a DML/DDL/CTE keyword, used as the name of a CTE (non-reserved words are
+    legal names): the type is the DML keyword after the CTE definitions"""
+    words = set()
+    for name in DICT_ORDER:
+        words |= set(getattr(K, name))
+    for w in sorted(words):
+        if not w.replace('_', '').isalnum() or w[0].isdigit() or w in CTE_NAME_EXCLUDED:
+            continue
+        if dict_type(w) in (T.Keyword.DML, T.Keyword.DDL, T.Keyword.CTE):
+            continue
+        for i, (tpl, exp) in enumerate(CTE_TEMPLATES):
+            name = w.lower() if i != 2 else w.capitalize()
+            yield {'text': tpl % (name, name), 'expected': exp, 'word': w}
+
+
+def check_cte_name(case):
+    res = Result(key=case['text'], nontrivial=True)
+    try:
+        got = [s.get_type() for s in sqlparse.parse(case['text'])]
+    except Exception as e:
+        res.failures.append(exc_failure('raises', e))
+        return res
+    if got != [case['expected']]:
+        res.fail('type', 'cte-name', 'get_type() of %r is %r, expected %r (the DML keyword after the CTE definitions)' % (case['text'], got, [case['expected']]))
+    res.labels = ['cte-name']
+    res.sample = {'text': case['text']}
+    return res
+
+
+LEGS = [Leg('cte-names', check=check_cte_name, enumerate=_cte_names, exhaustive=True),
+        Leg('tight-follow', check=check_tight_follow, enumerate=tight_follow_enum, exhaustive=True, max_shards=4),
         Leg('tight-paren', check=check_tight, strategy=lambda tier: tight_paren_cases(), examples={'quick': 300, 'thorough': 3000}, hazard_leg=True),
         Leg('main', check=check, strategy=lambda tier: cases(False), examples={'quick': 8000, 'thorough': 200000})]
